@@ -30,6 +30,7 @@ type Prog struct {
 	sentinels map[string]int
 	strlits   map[string]int
 	usedRec   map[string]bool
+	recCache  map[string]string
 }
 
 func pkgKeyOf(path string) (string, bool) {
